@@ -324,3 +324,31 @@ def _dissect(ex, args, kwargs, e):
 
 
 W.externs['dawgie.db.shelve.util.dissect'] = Extern(fn=_dissect)
+
+# ---------------------------------------------------------------------------- the algorithm tree
+CONSTRUCT = Ref('Construct')
+W.declare_fields('Construct', _at=ListSet(NODE))
+W.class_path['Construct'] = 'dawgie.pl.dag.Construct'
+W.declare_global('dawgie.pl.schedule.ae', Opt(CONSTRUCT))
+W.properties[('Construct', 'at')] = ('dawgie.pl.dag.Construct.at', None)
+from pyvc.types import Bag
+
+
+@contract(W, 'dawgie/pl/dag.py', 'Construct.at', props=['C01', 'C02', 'C03', 'C09'])
+class construct_at(ContractBase):
+    params = {'self': CONSTRUCT}
+    inline = True
+
+
+@contract(W, 'dawgie/pl/dag.py', 'Node.locate', props=['C02', 'C09'])
+class node_locate(ContractBase):
+    """assumed for callers (recursive list building; decided by the bounded stand-in under C09): the nodes of the
+    subtree with that tag"""
+    params = {'self': NODE, 'name': ATOM}
+    returns = ListSet(NODE)
+    modifies = []
+    stub = True
+
+    def ensures(c):
+        n = c.sk('n', NODE)
+        return {'located': c.result[n] == And(reach(c['self'], n), tag(c.old, n) == c['name'])}
